@@ -29,6 +29,13 @@ pub struct SupplyTrace {
     /// the name requested for the returned summary (None = the entry point's default, "")
     #[serde(default)]
     pub step_name: Option<String>,
+    /// pass the link directory relative to the working directory ("../links") instead of absolute
+    #[serde(default)]
+    pub rel_link_dir: bool,
+    /// read(2) faults (short reads, EINTR; per mille) while the verifier runs, on odd repetitions only:
+    /// the verdict must not depend on how the bytes of the link files arrive
+    #[serde(default)]
+    pub read_faults: Option<(u64, u64)>,
 }
 
 pub struct SupplyOutcome {
@@ -77,6 +84,7 @@ pub fn run_supply(t: &SupplyTrace, scratch: &Scratch) -> SupplyOutcome {
     let mut work_after = vec![];
     let mut truth = None;
     let mut no_layout = None;
+    let mut read_fired: Vec<String> = vec![];
     for (rep, hs) in t.hash_seeds.iter().enumerate() {
         scratch.reset_dirs();
         write_actor_scripts(&t.root, &scratch.side());
@@ -89,8 +97,17 @@ pub fn run_supply(t: &SupplyTrace, scratch: &Scratch) -> SupplyOutcome {
         }
         let arrival = if t.arrivals.is_empty() { 0 } else { t.arrivals[rep % t.arrivals.len()] };
         let m = materialise(&stored, &scratch.links(), arrival, fired.clone()).expect("materialise");
-        let links = scratch.links();
+        let links = if t.rel_link_dir { std::path::PathBuf::from("../links") } else { scratch.links() };
         let work = scratch.work();
+        let armed = match t.read_faults {
+            Some((short, eintr)) if rep % 2 == 1 => {
+                use std::os::unix::fs::MetadataExt;
+                let dev = std::fs::metadata(scratch.links()).map(|m| m.dev()).unwrap_or(0);
+                crate::seams::read_arm(dev, *hs, short, eintr, 0);
+                true
+            }
+            _ => false,
+        };
         let call = VerifyCall {
             layout_bytes: &m.root_layout_bytes,
             caller_keys: caller.clone(),
@@ -106,6 +123,15 @@ pub fn run_supply(t: &SupplyTrace, scratch: &Scratch) -> SupplyOutcome {
             }
             CallResult::Verdict(v) => verdicts.push(v),
         }
+        if armed {
+            let (_calls, short, eintr, _) = crate::seams::read_disarm();
+            if short > 0 {
+                read_fired.push("R-SHORT".to_string());
+            }
+            if eintr > 0 {
+                read_fired.push("R-EINTR".to_string());
+            }
+        }
         std::env::set_current_dir("/").ok();
         events.push(scratch.events());
         work_after.push(exec::listing(&scratch.work()));
@@ -116,5 +142,9 @@ pub fn run_supply(t: &SupplyTrace, scratch: &Scratch) -> SupplyOutcome {
             break;
         }
     }
-    SupplyOutcome { no_layout, verdicts, truth: truth.expect("at least one repetition"), events, work_after }
+    let mut truth = truth.expect("at least one repetition");
+    read_fired.sort();
+    read_fired.dedup();
+    truth.fired.extend(read_fired);
+    SupplyOutcome { no_layout, verdicts, truth, events, work_after }
 }
